@@ -15,6 +15,7 @@ EXPLANATION = (
     "issubclass guard, from the exception whitelist under a membership guard, or is struct.error; the whitelist is filled "
     "only by the two module-level loops over builtins and Pyro5.errors under issubclass filters; imports inside decode "
     "functions are limited to the package and sqlite3/marshal; msgpack extension records go through ext_hook (unknown codes refused); "
+    'Also decided (round 9): Every attribute a Proxy method assigns on self is declared in Proxy.__pyroAttributes (otherwise __setstate__ connects while decoding). '
     "constructors reachable from the decoder do not inspect the values they wrap. Not decided: what the trusted third-party decoders can build, "
     "side effects of exception constructors."
 )
